@@ -179,7 +179,7 @@ func runChildOnce(bin string, spec proto.Spec, timeout time.Duration) (ends []pr
 		class, note := classifyDeath(all, code)
 		if stall != "" && code == 3 {
 			class, note = "stall:"+stall, stall
-			if spec.Flavour == "auto" && strings.HasPrefix(stall, "spin") {
+			if isAuto(spec.Flavour) && strings.HasPrefix(stall, "spin") {
 				// in the auto-instrumented build every synchronisation operation is a yield and lock waits are
 				// yields: 15 s of CPU time without reaching one is a goroutine of Mine computing or spinning
 				// without synchronisation, which no other goroutine can end
